@@ -6,13 +6,15 @@
      visitPredicate                            =  ia_pred PStd = dedup (dmap (pred_of_diff c)) after the subtraction
      visitOnce / Historically                  =  once_op / hist_op            visitEventually / Always  =  ev_op / alw_op
      since_operation / until_operation         =  since_op / until_op
-     since_timed_operation / until_timed_...   =  since_timed_op / until_timed_op   (the four window loops are the hand models, pinned)
+     once/historically/eventually/always_timed_operation = once_timed_op / hist_timed_op / ev_timed_op / alw_timed_op   (DenseOfflineGenWinCorrect.v)
+     since_timed_operation / until_timed_...   =  since_timed_op / until_timed_op
      gen_deval                                 =  deval   (formulas without sqrt / ln: equality; all formulas: a result of gen_deval is the result of deval)
    intersection() itself is not generated: both sides call isect / split_isect.
    This file is re-checked against the regenerated text on every build. *)
 From Coq Require Import List Bool Arith ZArith Lia.
 From RV Require Import Val Syntax Rho Online Dense DenseMerge DenseMergeG DenseEval DenseWin DenseIA DenseVisitor PySem PyDense PyDenseOff
   DenseOfflineGen.
+From RV Require Import DenseOfflineGenWinCorrect.
 Import ListNotations.
 Local Open Scope Z_scope.
 
@@ -319,27 +321,31 @@ Proof. unfold gen_visitSince. rewrite gen_since_operation_ok. apply obind_some. 
 Lemma gen_visitUntil_ok l r : gen_visitUntil AR l r = until_op l r.
 Proof. unfold gen_visitUntil. rewrite gen_until_operation_ok. apply obind_some. Qed.
 
-(* ---------------- the bounded operators: the window loops are the hand models (pinned), the decompositions are generated ---------------- *)
+(* ---------------- the bounded operators: the window loops (DenseOfflineGenWinCorrect.v) and the decompositions ---------------- *)
 Lemma gen_since_timed_operation_ok l r b e : gen_since_timed_operation AR l r b e = since_timed_op l r b e.
 Proof.
-  unfold gen_since_timed_operation, since_timed_op. cbv zeta. rewrite gen_since_operation_ok.
+  unfold gen_since_timed_operation, since_timed_op. cbv zeta. rewrite gen_since_operation_ok, !gen_once_timed_operation_ok.
   destruct (0 <? b); destruct (once_timed_op r b e) as [o1|]; cbn [obind]; try reflexivity;
     destruct (since_op l r) as [o2|]; cbn [obind]; try reflexivity.
-  - destruct (hist_timed_op o2 0 b) as [o3|]; cbn [obind]; [|reflexivity]. rewrite gen_and_operation_ok. destruct (isect vmin o1 o3); reflexivity.
+  - rewrite gen_historically_timed_operation_ok. destruct (hist_timed_op o2 0 b) as [o3|]; cbn [obind]; [|reflexivity]. rewrite gen_and_operation_ok. destruct (isect vmin o1 o3); reflexivity.
   - rewrite gen_and_operation_ok. destruct (isect vmin o1 o2); reflexivity.
 Qed.
 Lemma gen_until_timed_operation_ok l r b e : gen_until_timed_operation AR l r b e = until_timed_op l r b e.
 Proof.
-  unfold gen_until_timed_operation, until_timed_op. cbv zeta. rewrite gen_until_operation_ok.
+  unfold gen_until_timed_operation, until_timed_op. cbv zeta. rewrite gen_until_operation_ok, !gen_eventually_timed_operation_ok.
   destruct (0 <? b); destruct (ev_timed_op r b e) as [o1|]; cbn [obind]; try reflexivity;
     destruct (until_op l r) as [o2|]; cbn [obind]; try reflexivity.
-  - destruct (alw_timed_op o2 0 b) as [o3|]; cbn [obind]; [|reflexivity]. rewrite gen_and_operation_ok. destruct (isect vmin o1 o3); reflexivity.
+  - rewrite gen_always_timed_operation_ok. destruct (alw_timed_op o2 0 b) as [o3|]; cbn [obind]; [|reflexivity]. rewrite gen_and_operation_ok. destruct (isect vmin o1 o3); reflexivity.
   - rewrite gen_and_operation_ok. destruct (isect vmin o1 o2); reflexivity.
 Qed.
-Lemma gen_visitTimedOnce_ok s b e : gen_visitTimedOnce AR s b e = once_timed_op s b e. Proof. apply obind_some. Qed.
-Lemma gen_visitTimedHistorically_ok s b e : gen_visitTimedHistorically AR s b e = hist_timed_op s b e. Proof. apply obind_some. Qed.
-Lemma gen_visitTimedEventually_ok s b e : gen_visitTimedEventually AR s b e = ev_timed_op s b e. Proof. apply obind_some. Qed.
-Lemma gen_visitTimedAlways_ok s b e : gen_visitTimedAlways AR s b e = alw_timed_op s b e. Proof. apply obind_some. Qed.
+Lemma gen_visitTimedOnce_ok s b e : gen_visitTimedOnce AR s b e = once_timed_op s b e. 
+Proof. unfold gen_visitTimedOnce. rewrite gen_once_timed_operation_ok. apply obind_some. Qed.
+Lemma gen_visitTimedHistorically_ok s b e : gen_visitTimedHistorically AR s b e = hist_timed_op s b e. 
+Proof. unfold gen_visitTimedHistorically. rewrite gen_historically_timed_operation_ok. apply obind_some. Qed.
+Lemma gen_visitTimedEventually_ok s b e : gen_visitTimedEventually AR s b e = ev_timed_op s b e. 
+Proof. unfold gen_visitTimedEventually. rewrite gen_eventually_timed_operation_ok. apply obind_some. Qed.
+Lemma gen_visitTimedAlways_ok s b e : gen_visitTimedAlways AR s b e = alw_timed_op s b e. 
+Proof. unfold gen_visitTimedAlways. rewrite gen_always_timed_operation_ok. apply obind_some. Qed.
 Lemma gen_visitTimedSince_ok l r b e : gen_visitTimedSince AR l r b e = since_timed_op l r b e.
 Proof. unfold gen_visitTimedSince. rewrite gen_since_timed_operation_ok. apply obind_some. Qed.
 Lemma gen_visitTimedUntil_ok l r b e : gen_visitTimedUntil AR l r b e = until_timed_op l r b e.
@@ -447,6 +453,8 @@ Theorem dense_offline_gen_refines :
   (forall s, gen_visitEventually AR s = Some (ev_op s)) /\ (forall s, gen_visitAlways AR s = Some (alw_op s)) /\
   (forall l r, gen_since_operation AR l r = since_op l r) /\ (forall l r, gen_until_operation AR l r = until_op l r) /\
   (forall l r, gen_visitSince AR l r = since_op l r) /\ (forall l r, gen_visitUntil AR l r = until_op l r) /\
+  (forall s b e, gen_once_timed_operation AR s b e = once_timed_op s b e) /\ (forall s b e, gen_historically_timed_operation AR s b e = hist_timed_op s b e) /\
+  (forall s b e, gen_eventually_timed_operation AR s b e = ev_timed_op s b e) /\ (forall s b e, gen_always_timed_operation AR s b e = alw_timed_op s b e) /\
   (forall l r b e, gen_since_timed_operation AR l r b e = since_timed_op l r b e) /\
   (forall l r b e, gen_until_timed_operation AR l r b e = until_timed_op l r b e) /\
   (forall s b e, gen_visitTimedOnce AR s b e = once_timed_op s b e) /\ (forall s b e, gen_visitTimedHistorically AR s b e = hist_timed_op s b e) /\
@@ -464,7 +472,9 @@ Proof.
   - apply gen_visitPow_ok. - apply gen_visitLog_ok. - apply gen_visitAnd_ok. - apply gen_visitOr_ok. - apply gen_visitImplies_ok.
   - apply gen_visitIff_ok. - apply gen_visitXor_ok. - apply gen_visitPredicate_ok. - apply gen_visitOnce_ok. - apply gen_visitHistorically_ok.
   - apply gen_visitEventually_ok. - apply gen_visitAlways_ok. - apply gen_since_operation_ok. - apply gen_until_operation_ok.
-  - apply gen_visitSince_ok. - apply gen_visitUntil_ok. - apply gen_since_timed_operation_ok. - apply gen_until_timed_operation_ok.
+  - apply gen_visitSince_ok. - apply gen_visitUntil_ok.
+  - apply gen_once_timed_operation_ok. - apply gen_historically_timed_operation_ok. - apply gen_eventually_timed_operation_ok. - apply gen_always_timed_operation_ok.
+  - apply gen_since_timed_operation_ok. - apply gen_until_timed_operation_ok.
   - apply gen_visitTimedOnce_ok. - apply gen_visitTimedHistorically_ok. - apply gen_visitTimedEventually_ok. - apply gen_visitTimedAlways_ok.
   - apply gen_visitTimedSince_ok. - apply gen_visitTimedUntil_ok.
   - intros Hneg. split; [intros p W r; apply gen_deval_refines; exact Hneg|intros p W; apply gen_deval_total; exact Hneg].
